@@ -6,6 +6,7 @@ From BV Require Import Lib.PyVal Gen.K_laxsem Model.LaxSem Proofs.LaxSemProofs.
 From BV Require Gen.G_pool_shape Model.Pool Proofs.PoolSup Proofs.PoolSem Gen.G_laxsem_atomic.
 From BV Require Model.PoolSys Proofs.PoolSysProofs Proofs.PoolRefuted Proofs.PoolMore.
 From BV Require Gen.G_pool_pins.
+From BV Require Model.Pool Model.LaxSem Proofs.PoolTick Model.PoolCrash Proofs.PoolCrashProofs.
 Import ListNotations.
 Open Scope Z_scope.
 
@@ -158,3 +159,15 @@ Proof. reflexivity. Qed.
 Theorem C10_modelled_code_is_the_validated_text : G_pool_pins.modelled_code_of_C10 = true.
 Proof. reflexivity. Qed.
 Print Assumptions C10_modelled_code_is_the_validated_text.
+
+(* ---- the closed system with crashes (Model/PoolCrash.v): free slots + slot holders = the bound in
+   every reachable state (a lost job holds its slot until its worker is reaped, a marked job holds
+   none), and every complete end has all slots back *)
+Theorem C10_crash_slots_account : forall c n,
+    1 <= Pool.c_n c -> Pool.c_maxr c = None -> forall y, PoolCrashProofs.creach c n y ->
+    Pool.putlocks (PoolCrash.cpar y) = true ->
+    LaxSem.value (Pool.sem (PoolCrash.cpar y)) + Z.of_nat (PoolCrash.slot_holders y)
+    = LaxSem.bound (Pool.sem (PoolCrash.cpar y))
+    /\ 0 <= LaxSem.value (Pool.sem (PoolCrash.cpar y)).
+Proof. exact PoolCrashProofs.cslots_account. Qed.
+Print Assumptions C10_crash_slots_account.
